@@ -64,6 +64,7 @@ type Del struct {
 	Sub       *Sub
 	Msg       *Msg
 	Origin    *Del
+	PubLo     time.Time // earliest time the stored publish time can be (start of the publish request); zero = Pub
 	State     State
 	N         int // deliveries so far
 	Lo, Hi    time.Time
@@ -498,7 +499,10 @@ func (m *Model) Publish(topic string, msgs []MsgSpec, ids []string, now time.Tim
 		m.Msgs = append(m.Msgs, msg)
 		for _, s := range m.AllSubs {
 			if s.Live && s.Topic == t && matches(s, spec) {
-				m.newDel(s, msg, nil, at)
+				// the stored publish time is somewhere between the start of the
+				// request and a little after it; only the order inside the batch is
+				// taken from the position
+				m.newDel(s, msg, nil, at).PubLo = now
 			}
 		}
 	}
@@ -1072,7 +1076,11 @@ func (m *Model) pubCmp(d *Del, t time.Time) int { // -1: pub<=t, +1: pub>t, 0 un
 		}
 		return -1
 	}
-	if t.Before(d.Pub) {
+	lo := d.Pub
+	if !d.PubLo.IsZero() {
+		lo = d.PubLo
+	}
+	if t.Before(lo) {
 		return 1
 	}
 	if !t.Before(d.Pub.Add(Eps)) {
